@@ -50,7 +50,7 @@ U_wampdot == <<"w","a","m","p",".">>
 FeatOf(s) == IF s = "s1" THEN <<"callee:call_canceling", "callee:progressive_call_results", "subscriber:publisher_identification">>
              ELSE IF s = "s2" THEN <<"callee:call_timeout">> ELSE <<>>
 JoinOf(s) == [authid |-> IF s = "s3" THEN "alice" ELSE "u1", color |-> IF s = "s1" THEN "red" ELSE "",
-              feats |-> FeatOf(s), local |-> s # "s3", q |-> 0]
+              feats |-> FeatOf(s), local |-> s # "s3", q |-> 0, tr |-> ""]
 
 NextId(S) == IF S = {} THEN 1 ELSE (CHOOSE n \in S : \A m \in S : m <= n) + 1
 J == Joined(Cur)
